@@ -142,6 +142,51 @@ class ListVal(AVal):
         return 'ListVal(%r)' % (self.items,)
 
 
+class StrCat(AVal):
+    """a string that is the concatenation of constant strings and unknown strings (`Sym`s standing for *any* string):
+    the symbolic string domain of EVAL rules over text-building helpers. Normal form: no empty constant, adjacent
+    constants merged."""
+
+    def __init__(self, parts: List[AVal]):
+        out: List[AVal] = []
+        for p in parts:
+            if isinstance(p, StrCat):
+                sub = p.parts
+            else:
+                sub = [p]
+            for q in sub:
+                if isinstance(q, K):
+                    if q.v == '':
+                        continue
+                    if out and isinstance(out[-1], K):
+                        out[-1] = K(out[-1].v + q.v)
+                        continue
+                out.append(q)
+        self.parts = out
+
+    def unknowns(self):
+        return [p for p in self.parts if not isinstance(p, K)]
+
+    def certainly_nonempty(self) -> bool:
+        return any(isinstance(p, K) for p in self.parts)
+
+    def key(self, known_empty=()):
+        """comparable normal form; unknown strings known to be empty on the path are dropped"""
+        n = StrCat([p for p in self.parts if isinstance(p, K) or not any(p is e for e in known_empty)])
+        return tuple(('k', p.v) if isinstance(p, K) else ('s', id(p)) for p in n.parts)
+
+    def __repr__(self):
+        return 'StrCat(%s)' % ' + '.join(repr(p.v) if isinstance(p, K) else getattr(p, 'tag', '?') for p in self.parts)
+
+
+def as_strcat(v) -> Optional['StrCat']:
+    if isinstance(v, StrCat):
+        return v
+    if isinstance(v, K) and isinstance(v.v, str):
+        return StrCat([v])
+    return None
+
+
 # ---------------------------------------------------------------- state
 
 class Event:
@@ -908,6 +953,13 @@ class Interp:
                     and isinstance(vals[0], ListVal) and isinstance(vals[1], ListVal) \
                     and vals[0].is_tuple == vals[1].is_tuple:
                 v = ListVal(vals[0].items + vals[1].items, vals[0].is_tuple)
+            if v is None and isinstance(node, ast.BinOp) and isinstance(node.op, ast.Add) and len(vals) == 2 \
+                    and any(isinstance(x, StrCat) for x in vals) and all(as_strcat(x) is not None for x in vals):
+                v = StrCat([as_strcat(vals[0]), as_strcat(vals[1])])
+            if v is None and isinstance(node, ast.JoinedStr) and any(isinstance(x, StrCat) for x in vals) \
+                    and all(isinstance(ch, ast.Constant) or (isinstance(ch, ast.FormattedValue) and ch.conversion == -1
+                                                             and ch.format_spec is None) for ch in node.values):
+                v = self._joined_strcat(node, s)
             if v is None and isinstance(node, ast.Subscript) and len(vals) >= 2:
                 base, idx = vals[0], vals[1]
                 items = self.concrete_items(base)
@@ -935,6 +987,19 @@ class Interp:
                     v.truth, v.nullness = True, False
             out.append(('val', v, s))
         return out
+
+    def _joined_strcat(self, node: ast.JoinedStr, st: State):
+        """f'..{x}..' whose placeholders are plain (no conversion / format spec) and symbolic strings"""
+        parts = []
+        for ch in node.values:
+            if isinstance(ch, ast.Constant):
+                parts.append(K(ch.value))
+            else:
+                rs = self.ev(ch.value, st.fork())
+                if len(rs) != 1 or rs[0][0] != 'val' or as_strcat(rs[0][1]) is None:
+                    return None
+                parts.append(as_strcat(rs[0][1]))
+        return StrCat(parts)
 
     def _const_env(self, st: State) -> dict:
         env = {}
@@ -1332,6 +1397,26 @@ class Interp:
             if name == 'len':
                 return [('val', K(len(items)), st)]
             return [('val', ListVal(list(items), name == 'tuple'), st)]
+        # '<sep>'.join(<literal sequence of symbolic strings>)
+        sep = None
+        if isinstance(cv, K) and type(cv.v).__name__ == '_BoundPy' and cv.v.attr == 'join' and isinstance(cv.v.base, str):
+            sep = cv.v.base
+        elif isinstance(cv, K) and callable(cv.v) and isinstance(getattr(cv.v, '__self__', None), str) \
+                and getattr(cv.v, '__name__', None) == 'join':
+            sep = cv.v.__self__
+        elif isinstance(cv, Sym) and cv.origin and cv.origin[0] == 'attr' and isinstance(cv.origin[1], K) \
+                and isinstance(cv.origin[1].v, str) and cv.origin[2] == 'join':
+            sep = cv.origin[1].v
+        if sep is not None and len(args) == 1:
+            items = self.concrete_items(args[0])
+            if items is not None and any(isinstance(x, StrCat) for x in items) \
+                    and all(as_strcat(x) is not None for x in items):
+                parts = []
+                for i, x in enumerate(items):
+                    if i:
+                        parts.append(K(sep))
+                    parts.append(as_strcat(x))
+                return [('val', StrCat(parts), st)]
         if isinstance(cv, K) and type(cv.v).__name__ == '_BoundPy' and all(isinstance(a, K) for a in args):
             # a method of a constant (str / dict / set) with constant arguments, evaluated by the folder
             r = cv.v.call([a.v for a in args], {})
@@ -1544,6 +1629,8 @@ class Interp:
             return [(True, st)]
         if isinstance(v, ListVal):
             return [(bool(v.items), st)]
+        if isinstance(v, StrCat):
+            return self._strcat_nonempty(v, st, test)
         if isinstance(v, Sym):
             if v.truth is not None:
                 return [(v.truth, st)]
@@ -1558,6 +1645,21 @@ class Interp:
 
             return self._fork2(st, test, rt, rf)
         return self._fork2(st, test)
+
+    def _strcat_nonempty(self, v: 'StrCat', st: State, test, negate: bool = False):
+        """[(truth, state)] of `<v> is a non-empty string`; on the empty branch every unknown part is known empty"""
+        if v.certainly_nonempty():
+            return [(not negate, st)]
+        if not v.parts:
+            return [(negate, st)]
+
+        def r_empty(s_):
+            s_.trace.append(Event('str-empty', list(v.unknowns()), test, s_.frame.func))
+            s_.replace_value(v, K(''))
+
+        if negate:
+            return self._fork2(st, test, r_empty, None)
+        return self._fork2(st, test, None, r_empty)
 
     def nullness(self, v: AVal) -> Optional[bool]:
         """True: is None, False: is not None, None: unknown"""
@@ -1588,6 +1690,11 @@ class Interp:
                             s.replace_value(a, a.refined(nullness=False) if not neg else NONE)
 
                         return self._fork2(st, test, rt, rf)
+            if isinstance(op, (ast.Eq, ast.NotEq)):
+                for a, b in ((l, r), (r, l)):
+                    if isinstance(a, StrCat) and isinstance(b, K) and b.v == '':
+                        # a == ''  <=>  a is empty
+                        return self._strcat_nonempty(a, st, test, negate=not neg)
             if isinstance(l, K) and isinstance(r, K):
                 eq = self.const_equal(l.v, r.v, isinstance(op, (ast.Is, ast.IsNot)), st)
                 if eq is not None:
